@@ -20,7 +20,7 @@ class Overflow(Exception):
 def explore(fn, start, is_atom, stop=frozenset(), max_leaves=2048):
     leaves = []
 
-    def expr_of(rv, pt, env):
+    def expr_of(rv, pt, env, order=None):
         k = rv['k']
         if k == 'use':
             op = rv['op']
@@ -41,11 +41,59 @@ def explore(fn, start, is_atom, stop=frozenset(), max_leaves=2048):
             ts = fn.rvalue_terms(rv, pt)
             if len(ts) == 1:
                 n = next(iter(ts))
+                if n[0] == 'binop' and (len(n[2]) > 1 or len(n[3]) > 1) and order is not None:
+                    # an operand selected on the way here (`let v = if c { a } else { b }; v >= lo`): on this path it is the
+                    # value of the arm that was taken
+                    a = path_terms(rv['a'], pt, order) or n[2]
+                    b_ = path_terms(rv['b'], pt, order) or n[3]
+                    n = ('binop', n[1], a, b_)
                 if is_atom(n):
                     return ('a', n, True)
         return None
 
-    def walk(b, env, val, path):
+    def path_terms(op, pt, order):
+        """terms of a plain-local operand as assigned last along the blocks visited so far (None: not decidable here)"""
+        pl = op.get('move') or op.get('copy')
+        if pl is None or pl['p']:
+            return None
+        local = pl['l']
+        seq = list(order)
+        bi, si = pt
+        for _hop in range(6):
+            found = None
+            # scan backwards: current block before si, then earlier blocks
+            k = len(seq) - 1
+            while k >= 0 and found is None:
+                blk_i = seq[k]
+                blk = fn.blocks[blk_i]
+                hi = si if (k == len(seq) - 1) else len(blk['stmts'])
+                if k != len(seq) - 1:
+                    t = blk['term']
+                    if t['k'] == 'call' and t['dest'] == {'l': local, 'p': []}:
+                        return fn.call_terms(t, blk_i)
+                for sj in range(hi - 1, -1, -1):
+                    st = blk['stmts'][sj]
+                    if st['k'] == 'assign' and st['place']['l'] == local:
+                        if st['place']['p']:
+                            return None
+                        found = (blk_i, sj, st, k)
+                        break
+                k -= 1
+            if found is None:
+                return None
+            blk_i, sj, st, k = found
+            rv2 = st['rv']
+            if rv2['k'] == 'use':
+                src = rv2['op'].get('move') or rv2['op'].get('copy')
+                if src is not None and not src['p']:
+                    local = src['l']
+                    seq = seq[:k + 1]
+                    si = sj
+                    continue
+            return fn.rvalue_terms(rv2, (blk_i, sj))
+        return None
+
+    def walk(b, env, val, path, order=()):
         while True:
             if len(leaves) > max_leaves:
                 raise Overflow()
@@ -56,6 +104,7 @@ def explore(fn, start, is_atom, stop=frozenset(), max_leaves=2048):
                 leaves.append((dict(val), ('loop', b)))
                 return
             path = path | {b}
+            order = order + (b,)
             blk = fn.blocks[b]
             for si, st in enumerate(blk['stmts']):
                 if st['k'] != 'assign':
@@ -63,7 +112,7 @@ def explore(fn, start, is_atom, stop=frozenset(), max_leaves=2048):
                 pl = st['place']
                 if pl['p']:
                     continue
-                e = expr_of(st['rv'], (b, si), env)
+                e = expr_of(st['rv'], (b, si), env, order)
                 if pl['l'] == 0:
                     if e is None:
                         leaves.append((dict(val), ('ret', None)))
@@ -119,10 +168,10 @@ def explore(fn, start, is_atom, stop=frozenset(), max_leaves=2048):
                     for tv in (True, False):
                         v2 = dict(val)
                         v2[key] = tv
-                        walk(edge(tv == pol), dict(env), v2, path)
+                        walk(edge(tv == pol), dict(env), v2, path, order)
                     return
                 for s in fn.succs(b):
-                    walk(s, dict(env), dict(val), path)
+                    walk(s, dict(env), dict(val), path, order)
                 return
             nxt = fn.succs(b)
             if not nxt:
@@ -132,7 +181,7 @@ def explore(fn, start, is_atom, stop=frozenset(), max_leaves=2048):
                 b = nxt[0]
                 continue
             for s in nxt:
-                walk(s, dict(env), dict(val), path)
+                walk(s, dict(env), dict(val), path, order)
             return
 
     import sys
